@@ -241,6 +241,13 @@ func (in *interp) strCompare(ex, ey []value) (lt, eq *Term) {
 func (in *interp) unop(instr *ssa.UnOp, x value) value {
 	switch instr.Op {
 	case token.MUL:
+		if sp, ok := x.(*symPtr); ok {
+			v, ok := in.symSelect(sp.cells, sp.idx)
+			if !ok {
+				panic(unsupported{"load through a symbolic index of non-scalar cells"})
+			}
+			return v
+		}
 		p := x.(*value)
 		if p == nil {
 			panic(runtimePanic{"invalid memory address or nil pointer dereference"})
